@@ -20,7 +20,7 @@ RULE = ("annotated generated assemblies over every supported geometry (as C08) w
         "one enzyme whose products (embedding the next level's sites by construction) are re-used as modules of a level-1 assembly over "
         "another enzyme. Non-trivial = product returned, provenance features tiled and the GenBank round trip compared; distinct = distinct input sets.")
 ASSUMPTIONS = ["ids/names are GenBank-legal (<= 16 characters of [A-Za-z0-9_])", "the GenBank format cannot express 'unstranded': None is compared as +1"]
-FLOORS = {"c09_judged": 400, "c09_genbank_roundtrips": 400, "c09_fragment_counts_checked": 300, "c09_inner_provenance_checked": 50, "c09_registry_products": 8}
+FLOORS = {"c09_with_unused_module": 50, "c09_judged": 400, "c09_genbank_roundtrips": 400, "c09_fragment_counts_checked": 300, "c09_inner_provenance_checked": 50, "c09_registry_products": 8}
 MUST_REACH = ["add_as_source", "AssemblyManager._annotate_assembly"]
 NEEDS_REGISTRIES = True
 BUDGET_S = {"quick": 900, "thorough": 7200}
@@ -53,6 +53,21 @@ def materialise(case):
             for f in s["features"]:
                 f["quals"]["uid"] = [f["quals"]["uid"][0].replace(s["id"] + ".", new + ".")]
             s["id"] = s["name"] = new
+        if rng.random() < 0.3:
+            # a supplied module that chains nowhere: it is left out with a warning but must still be named in the comment
+            geom = refmodel.geometry(gen.enzyme(m["enzyme"]))
+            used = set(m["overhangs"]) | {rc(o) for o in m["overhangs"]}
+            for _ in range(50):
+                o = gen.gen_overhangs(rng, geom[2], 2, forbid=(geom[0], rc(geom[0])))
+                if not (set(o) | {rc(x) for x in o}) & used and gen.max_distinct_overhangs(geom[2]) > len(m["overhangs"]) + 2:
+                    try:
+                        ex = gen.build_module(rng, geom, o[0], o[1], rng.randint(2, 12), rng.randint(0, 12))
+                    except RuntimeError:
+                        continue
+                    m["modules"].insert(rng.randrange(len(m["modules"]) + 1),
+                                        {"id": "SPARE_%d" % case["i"], "name": "spare", "seq": ex["seq"], "features": []})
+                    m["has_unused"] = True
+                    break
         m["id"] = "".join(rng.choice(IDCH) for _ in range(rng.randint(1, 16)))
         m["name"] = "".join(rng.choice(IDCH) for _ in range(rng.randint(1, 16)))
         return m
@@ -142,7 +157,14 @@ def execute(mat, ctx):
     ctx.count("evaluations")
     before = ctx.counters["c09_genbank_roundtrips"]
     if mat["kind"] == "assembly-mat":
-        res = _embedded.run_assembly(mat, ctx)
+        # two consecutive calls on the same record objects: the second product must be as complete as the first
+        shared = (gen.make_record(mat["vector"]), [gen.make_record(x) for x in mat["modules"]])
+        _mon.tag = {"call": 1}
+        res = _embedded.run_assembly(mat, ctx, records=shared)
+        _mon.tag = {"call": 2}
+        _embedded.run_assembly(mat, ctx, records=shared)
+        if mat.get("has_unused"):
+            ctx.count("c09_with_unused_module")
         sig = [mat["enzyme"], mat["vector"]["seq"], [m["seq"] for m in mat["modules"]], mat["id"]]
         sample = {"kind": "generated", "enzyme": mat["enzyme"], "id": mat["id"], "name": mat["name"], "input_ids": [mat["vector"]["id"]] + [m["id"] for m in mat["modules"]]}
         if res["outcome"] != "product":
